@@ -261,6 +261,11 @@ fixed("C12", "C12:interrupted-while-entering-nonblocking", "54141d9",
        for c in (["at", "Nonblocking.__enter__", "after fcntl", 2], ["at", "Nonblocking.__exit__", "first", 1],
                  ["at", "Nonblocking.__enter__", "after fcntl", 4])])
 
+fixed("C20", "C20:accepted-config-name-is-dead", "7807a7e",
+      "config names C-A..C-Z mapped to <Ctrl-A>.. and 'M- ' to <Esc+ >, names the decoder never produces",
+      [{"kind": "config", "name": "C-A", "may_reject": True}, {"kind": "config", "name": "C-I", "may_reject": True},
+       {"kind": "config", "name": "M- ", "may_reject": True}])
+
 known("C03", "C03:prefix-then-undecodable-byte",
       "get_key raises UnicodeDecodeError for a table-sequence prefix (e.g. ESC) followed by a byte >= 0x80 "
       "that does not decode: ESC + any 8-bit byte under ascii, ESC + a UTF-8 lead/continuation byte under utf-8",
